@@ -41,6 +41,7 @@ func init() {
 	h.Register(&h.Prop{ID: "C16", Gen: genC16, Exec: withCells(map[string]h.ExecFn{
 		"msg.hash":             func(a []string) string { return exMsgHash(a, false) },
 		"msg.hash.hasher":      func(a []string) string { return exMsgHash(a, true) },
+		"msg.hash.moved":       exMsgHashMoved,
 		"tx.hash":              func(a []string) string { return exTxHash(a, false) },
 		"tx.hash.hasher":       func(a []string) string { return exTxHash(a, true) },
 		"go.msg.shared_hasher": goMsgSharedHasher,
@@ -81,6 +82,61 @@ func exMsgHash(a []string, hasher bool) string {
 	c := rootOf(a[0])
 	var m tlb.Message
 	if err := unmarshalWith(hasher, c, &m); err != nil {
+		return "err"
+	}
+	h0 := m.Hash(false)
+	h1 := m.Hash(true)
+	body := boc.Cell(m.Body.Value)
+	bh, err := body.CopyRemaining().Hash()
+	if err != nil {
+		return "err"
+	}
+	return fmt.Sprintf("ok %x %x %d %x", h0[:], h1[:], msgKind(&m), bh)
+}
+
+// exMsgHashMoved: msg.hash.moved <table> <bits> <refs> <mode>: the message cell is handed to the decoder with its read
+// cursors moved (`bits` bits and `refs` references already consumed, the consumed children partly read themselves);
+// mode 0 plain, 1 a hasher that has already hashed the cell, 2 a hasher that has hashed only its children.
+// Same answer as msg.hash: the model (mutable cells with cursors, TongoModel/MessageHeap.lean) says the cursors and the
+// hasher state are irrelevant.
+func exMsgHashMoved(a []string) string {
+	c := rootOf(a[0])
+	nb, nr := 0, 0
+	fmt.Sscan(a[1], &nb)
+	fmt.Sscan(a[2], &nr)
+	if nb > c.BitsAvailableForRead() {
+		nb = c.BitsAvailableForRead()
+	}
+	_, _ = c.ReadBits(nb)
+	for i := 0; i < nr; i++ {
+		ch, err := c.NextRef()
+		if err != nil {
+			break
+		}
+		_, _ = ch.ReadBits(ch.BitsAvailableForRead() / 2)
+		_, _ = ch.NextRef()
+	}
+	var m tlb.Message
+	var err error
+	switch a[3] {
+	case "1":
+		dec := tlb.NewDecoder()
+		var warm tlb.Message
+		_ = dec.Unmarshal(rootOf(a[0]), &warm) // another pointer: does not warm the table for c
+		hsh := boc.NewHasher()
+		_, _ = hsh.Hash(c)
+		err = dec.Unmarshal(c, &m)
+	case "2":
+		dec := tlb.NewDecoder()
+		for _, r := range c.Refs() {
+			var x tlb.Message
+			_ = dec.Unmarshal(r, &x) // puts the children into the decoder's memo table (and moves their cursors)
+		}
+		err = dec.Unmarshal(c, &m)
+	default:
+		err = tlb.Unmarshal(c, &m)
+	}
+	if err != nil {
 		return "err"
 	}
 	h0 := m.Hash(false)
@@ -936,6 +992,10 @@ func genC16(g *h.G) {
 		g.Emit("msg.hash", ts)
 		g.Emit("msg.hash.hasher", ts)
 		g.Emit("go.msg.hash", ts)
+		if g.Rng.Intn(2) == 0 {
+			g.Count("msg_decoded_with_moved_cursors")
+			g.Emit("msg.hash.moved", ts, fmt.Sprint(g.Pick(0, 1, 7, 64, 300, 1023)), fmt.Sprint(g.Rng.Intn(5)), fmt.Sprint(g.Rng.Intn(3)))
+		}
 		recent = append(recent, ts)
 		if len(recent) == 4 {
 			g.Emit("go.msg.shared_hasher", recent...)
